@@ -447,6 +447,7 @@ package keeper
 //@      result1 == totIt(raw, ctxTime(ctx), serviceName, timeout, serviceFeeCap, consumer, providers, len(providers))
 //@ ensures [C11] no_error_when_prices_are_in_base_denom: allBase(raw, serviceName, providers) ==> err == NoErr
 //@ ensures [C06] only_providers_with_bindings: err == NoErr ==> len(result0) <= len(providers) && (forall i Int :: {result0[i]} 0 <= i && i < len(result0) ==> bindFound(raw, serviceName, result0[i]))
+//@ ensures [C06,C11] an_error_returns_no_provider_and_no_total: err != NoErr ==> len(result0) == 0 && len(result1) == 0
 
 //@ func (Keeper).buildRequest
 //@ vars (keeper.Keeper).buildRequest: k=github.com/irismod/service/keeper.Keeper#0 ctx=github.com/cosmos/cosmos-sdk/types.Context#0 requestContextID=github.com/tendermint/tendermint/libs/bytes.HexBytes#0 batchCounter=uint64#0 serviceName=string#0 provider=github.com/cosmos/cosmos-sdk/types.AccAddress#0 superMode=bool#0 consumer=github.com/cosmos/cosmos-sdk/types.AccAddress#1 timeout=int64#0 serviceFee=github.com/cosmos/cosmos-sdk/types.Coins#0 binding=github.com/irismod/service/types.ServiceBinding#0
